@@ -558,6 +558,8 @@ theorem ll_exNet_values : ∀ i, i < exNet.length →
 /-- for ANY `ExpLog ℚ` whose logarithm is at least `-10⁶` on `[3/8, ∞)` (the real logarithm is: `log (3/8) ≈ -0.98`) all
 hypotheses hold on the row `(1, 1)`, and `exp` of the generated log-value at the root is
 `1/3·(3/4·1/2) + 2/3·(9/10·3/4) = 23/40` -/
+/- NOTE (round 5): no `ExpLog ℚ` exists (`SamplingFacts.expLog_rat_empty`), so this example is satisfied vacuously; the genuine witness
+over the reals is in `Props/RealWitnesses.lean` / `Props/SamplingFacts.lean`. -/
 example (E : ExpLog ℚ) (hE : ∀ a : ℚ, 3/8 ≤ a → (-1000000 : ℚ) ≤ E.log a) :
     E.exp ((llTable E (Ev.ofList [some 1, some 1]) exNet exLeaves).getD 5 0) = 23/40 := by
   rw [e2e_log_likelihood_linear E exNet exLeaves [] _ exNet_wellOrdered exNet_tableLeaves
@@ -1644,6 +1646,8 @@ theorem ssExX_completes : Completes ssExT.scope ssExE ssExX := by
 /-- all hypotheses about the circuit hold on the witness, for ANY `ExpLog ℚ` and any `argmaxLaw` satisfying the trusted
 identity; the branch law at the root on the row `(·, 1)` is `(1/4·2/3, 3/4·1/10) / (29/120) = (20/29, 9/29)`, and the
 exact conditional of the completion `(0, 1)` is `(1/4·1/2·2/3 + 3/4·1/5·1/10) / (29/120) = 59/145` -/
+/- NOTE (round 5): no `ExpLog ℚ` exists (`SamplingFacts.expLog_rat_empty`), so this example is satisfied vacuously; the genuine witness
+over the reals is in `Props/RealWitnesses.lean` / `Props/SamplingFacts.lean`. -/
 example (E : ExpLog ℚ) (argmaxLaw : List ℚ → List ℚ) (hGumbelMax_trusted : ssGumbelMaxIdentity E argmaxLaw) :
     argmaxLaw (ssGenScore0 E [1/4, 3/4] [2/3, 1/10]) = [20/29, 9/29] ∧
     ssGenTopDownPmf E argmaxLaw ssExE ssExX ssExT * eval ssExE ssExT = eval ssExX ssExT ∧
